@@ -89,6 +89,11 @@ func solveAll(obls []*Obligation, dir string, timeout int, workers int) {
 func solveOne(o *Obligation, dir string, timeout int) {
 	file := oblFile(dir, o)
 	txt := o.SMT
+	if txt == "" {
+		// rendered here, in the worker, and not kept: the text of all obligations of a property does
+		// not fit in memory (terms are immutable, rendering only reads them)
+		txt = EmitSMTWith(o.funs, o.Hyps, o.Goal, o.Cover, o.Watch)
+	}
 	if err := os.WriteFile(file, []byte(txt), 0o644); err != nil {
 		o.Status = "error"
 		o.Model = err.Error()
@@ -105,6 +110,13 @@ func solveOne(o *Obligation, dir string, timeout int) {
 			o.Time = total
 			if st == "sat" {
 				o.Model = out
+			}
+			if (o.Cover && st == "sat") || (!o.Cover && st == "unsat") {
+				// as expected: the query file is not kept (a property has tens of thousands of them);
+				// files of obligations that fail, time out or are sampled into the evidence are kept / re-written
+				if os.Getenv("VERIF_KEEP_SMT") == "" {
+					os.Remove(file)
+				}
 			}
 			return
 		}
